@@ -306,6 +306,47 @@ def stage_slots(ctx: Ctx):
         d = reparse_diffs(root) or cmp_ast(root.a, ast.parse(want), positions=False, ctx=False)
         if d:
             ctx.violation('sub-struct|args-capture-with-interleaved-keywords', 'a slot was filled with more than the captured elements', {**rec, 'after': root.src, 'diffs': d})
+    # the same over the merged virtual fields (_args of a call, _bases of a class: positional and keyword elements in source order): every interleaving x every capture window
+    from fst.match import MClassDef as _MCD, MQPLUS as _MQP, MStarred as _MSt
+    for elems in (['a', 'k=1', '*b'], ['a', 'k=1', '*b', '**e'], ['a', 'k=1', '*b', 'j=2'], ['a', '*b', 'k=1'], ['a', 'b', 'c', 'k=1'], ['k=1', '*b', 'j=2', '*c'], ['*a', 'k=1', '*b', 'j=2', '**e'],
+                  ['a', 'é=1', '*b', 'j=2']):
+        n = len(elems)
+        windows = [('rest', lambda: [..., MQSTAR(t=...)], 1, n), ('init', lambda: [MQSTAR(t=...), ...], 0, n - 1), ('middle', lambda: [..., MQSTAR(t=...), ...], 1, n - 1),
+                   ('all', lambda: [MQSTAR(t=...)], 0, n)]
+        st = [i for i, e_ in enumerate(elems) if e_.startswith('*') and not e_.startswith('**')]
+        if len(st) == 1:
+            windows.append(('the-starred', lambda: [MQSTAR.NG, _MQP(t=_MSt), MQSTAR], st[0], st[0] + 1))
+        for holder in ('call', 'class'):
+            if holder == 'class' and any(e_.startswith('**') for e_ in elems):
+                pass
+            for wname, mkw, i0, j0 in windows:
+                for template_args in ('__FST_t', 'x, __FST_t', '__FST_t, z=0'):
+                    cap = elems[i0:j0]
+                    filled = template_args.replace('__FST_t', ', '.join(cap)) if cap else template_args.replace('__FST_t, ', '').replace(', __FST_t', '').replace('__FST_t', '')
+                    if holder == 'call':
+                        src, template, want = f'r = f({", ".join(elems)})', f'g({template_args})', f'r = g({filled})'
+                        mk = lambda: MCall(_args=mkw())
+                    else:
+                        src, template, want = f'class C({", ".join(elems)}): pass', f'class D({template_args}): pass', f'class D({filled}): pass'
+                        mk = lambda: _MCD(_bases=mkw())
+                    try:
+                        want_t = ast.parse(want)
+                    except SyntaxError:
+                        continue        # these elements in this order are no argument list
+                    root = fst.FST(src, 'exec')
+                    rec = {'src': src, 'pattern': f'{"MCall(_args=" if holder == "call" else "MClassDef(_bases="}{wname})', 'template': template, 'captured': cap, 'expected': want}
+                    try:
+                        got = root.subn(mk(), template)[1:]
+                    except Exception as e:
+                        ctx.dist['sub:virtual-capture:refused'] = ctx.dist.get('sub:virtual-capture:refused', 0) + 1
+                        if reparse_diffs(root) or root.src.rstrip('\n') != src:
+                            ctx.violation('sub-raise-dirty|virtual-capture', 'sub() raised and left a changed tree', {**rec, 'error': repr(e)[:200], 'after': root.src})
+                        continue
+                    ctx.tick(('slots-virtual', src, wname, template), 'sub:slots-virtual-capture')
+                    d = reparse_diffs(root) or cmp_ast(root.a, want_t, positions=False, ctx=False)
+                    if d or tuple(got) != (1, 1):
+                        ctx.violation(f'sub-struct|virtual-field-capture|{holder}', 'a slot filled with a quantifier capture over a merged virtual field does not hold exactly the captured elements',
+                                      {**rec, 'after': root.src, 'counts': list(got), 'diffs': d})
     # ctx=True: only the nodes whose expression context is the pattern's are rewritten and counted
     for src, mk, template, want, counts in [('total = total + step\ndel total\n', lambda: ast.Name('total', ast.Load()), 'acc', 'total = acc + step\ndel total\n', (1, 1)),
                                             ('total = total + step\ndel total\n', lambda: ast.Name('total', ast.Store()), 'acc', 'acc = total + step\ndel total\n', (1, 1)),
